@@ -232,12 +232,59 @@ def _draws(body):
     return out
 
 
+def oracle_program_brute(job):
+    """discrete draws only: exact enumeration of all draw sequences for n <= nmax, sequential state semantics (a read
+    before the assignment of the same iteration sees the value of the previous iteration)."""
+    mp = _mp()
+    prog, goals, nmax = job["prog"], job["goals"], job["nmax"]
+    fun = {"Sin": mp.sin, "Cos": mp.cos, "Exp": mp.exp}
+
+    def step(ss, env, w):
+        """-> list of (env, weight) after executing ss"""
+        if not ss:
+            return [(env, w)]
+        s, rest = ss[0], ss[1:]
+        if s[0] == "draw":
+            out = []
+            for p, v in discrete_law(s[2], s[3]):
+                if p:
+                    e2 = dict(env)
+                    e2[s[1]] = mp.mpf(v)
+                    out += step(rest, e2, w * _q(mp, p))
+            return out
+        e2 = dict(env)
+        if s[0] == "func":
+            e2[s[1]] = fun[s[2]](env[s[3]] if s[3] in env else _q(mp, s[3]))
+        elif s[0] == "poly":
+            r = mp.mpf(0)
+            for coef, mon in s[2]:
+                t = _q(mp, coef)
+                for v, k in mon.items():
+                    t *= env[v] ** k
+                r += t
+            e2[s[1]] = r
+        elif s[0] == "if":
+            return step((s[3] if env[s[1]] == s[2] else s[4]) + rest, env, w)
+        return step(rest, e2, w)
+
+    states = [({v: _q(mp, x) for v, x in prog["init"].items()}, mp.mpf(1))]
+    vals = {g: [] for g in goals}
+    for n in range(nmax + 1):
+        for g, mon in goals.items():
+            vals[g].append(mp.fsum(w * mp.fprod(env[v] ** k for v, k in mon.items()) for env, w in states))
+        if n < nmax:
+            states = [x for env, w in states for x in step(prog["body"], env, w)]
+    return {"values": {g: [mp.nstr(v, 45) for v in vs] for g, vs in vals.items()}, "err": "0"}
+
+
 def oracle_program(job):
     """E[goal monomial] at n = 0..nmax, independent of Polar.  Iteration-local variables depend only
     on the current iteration's draws; the accumulator acc' = A*acc + U with A, U local; so
     E[acc_n^k L_n] = sum_j C(k,j) E[acc_{n-1}^j] E[A^j U^(k-j) L]  (independence of iterations),
     the local expectations being enumerated (discrete draws) / integrated by quadrature (one
     continuous draw)."""
+    if job.get("acc") == "__brute__":
+        return oracle_program_brute(job)
     mp = _mp()
     prog, goals, nmax = job["prog"], job["goals"], job["nmax"]
     init = {v: _q(mp, x) for v, x in prog["init"].items()}
@@ -557,6 +604,18 @@ def gen_programs(ctx):
         init = {"x": fr(), "v": "0", "y": fr(), "w": fr()}
         out.append(("T7-twodraws", {"init": init, "body": body}, None,
                     goals_of([{"y": 1, "w": 1}, {"x": 1, "y": 1, "w": 1}, {"y": 2, "v": 1}, {"v": 1, "w": 2}]), True))
+    # T8 function (or the copy it refers to) placed BEFORE the draw of its argument: it reads the value of the previous
+    # iteration, whose law is not the draw's at n = 1 and which is not independent of ... ; Polar must refuse or be right
+    for d in [("DiscreteUniform", ["1", "2"]), ("Bernoulli", ["1/3"])]:
+        f = rng.choice(["Sin", "Cos"])
+        out.append(("T8-before-draw", {"init": {"a": "1/2", "y": "0"}, "body": [["func", "y", f, "a"], ["draw", "a", d[0], d[1]]]},
+                    "__brute__", goals_of([{"y": 1}, {"y": 2}, {"a": 1, "y": 1}]), True))
+        out.append(("T8-copy-before-draw", {"init": {"a": "0", "b": "2", "y": "0", "x": "0"},
+                                            "body": [["poly", "b", P(("1", {"a": 1}))], ["draw", "a", d[0], d[1]], ["func", "y", f, "b"],
+                                                     ["poly", "x", P(("1", {"a": 1, "y": 1}))]]},
+                    "__brute__", goals_of([{"x": 1}, {"y": 1}, {"b": 1, "y": 1}]), True))
+    out.append(("T8-exp-before-draw", {"init": {"a": "1", "w": "0"}, "body": [["func", "w", "Exp", "a"], ["draw", "a", "DiscreteUniform", ["-1", "1"]]]},
+                "__brute__", goals_of([{"w": 1}, {"a": 1, "w": 1}]), True))
     # rounding mode on a few programs
     extra = []
     for lab, prog, acc, goals, _ in rng.sample(out, min(len(out), ctx.pick(4, 12))):
